@@ -24,7 +24,11 @@ Record env := mkEnv {
 
 Definition issub (E : env) (a b : Z) : bool :=
   existsb (fun p => (fst p =? a) && (snd p =? b)) (e_sub E).
-Definition isinstance (E : env) (v : pv) (c : Z) : bool := issub E (class_of v) c.
+(* PyObject_TypeCheck: the real type of the object *)
+Definition typecheck (E : env) (v : pv) (c : Z) : bool := issub E (class_of v) c.
+(* isinstance / PyObject_IsInstance: also what the object's __class__ attribute reports *)
+Definition isinstance (E : env) (v : pv) (c : Z) : bool :=
+  issub E (class_of v) c || match v with PProxy k _ => issub E k c | _ => false end.
 Fixpoint orc_find (t : list (Z * pv * pv)) (f : Z) (v : pv) : option pv :=
   match t with
   | [] => None
@@ -238,8 +242,8 @@ Definition coerce_info (d : desc) : Z * list Z :=
   end.
 Definition c_coerce (E : env) (d : desc) (v : pv) : vres :=
   let '(ty, ctys) := coerce_info d in
-  if isinstance E v ty then Accept v
-  else if existsb (isinstance E v) ctys then Accept (PBool (truthy v))   (* type_converter(bool, v) *)
+  if typecheck E v ty then Accept v
+  else if existsb (typecheck E v) ctys then Accept (PBool (truthy v))   (* type_converter(bool, v) *)
   else Reject.
 
 Definition c_adapt (E : env) (cls mode : Z) (allow_none : bool) (dflt v : pv) : vres :=
@@ -364,10 +368,10 @@ Fixpoint c_validate (E : env) (d : desc) (v : pv) {struct d} : vres :=
   | DTuple [] => py_tuple0 v                                    (* no fast descriptor: validate_trait_python *)
   | DTuple ds => tuple_check (c_validate E) ds v                (* validate_trait_tuple 3726 *)
   | DInstance cls an tc =>                                      (* validate_trait_type 3258 / _instance 3280 *)
-      if (an && pv_eqb v PNone) || isinstance E v cls then Accept v else Reject
+      if (an && pv_eqb v PNone) || (if tc then typecheck E v cls else isinstance E v cls) then Accept v else Reject
   | DAdapt cls mode an dflt => c_adapt E cls mode an dflt v     (* validate_trait_adapt 3903 *)
   | DSelf an =>                                                 (* validate_trait_self_type 3303 *)
-      if (an && pv_eqb v PNone) || isinstance E v (e_self E) then Accept v else Reject
+      if (an && pv_eqb v PNone) || typecheck E v (e_self E) then Accept v else Reject
   | DCallable an =>                                             (* validate_trait_callable 3857 *)
       match v with
       | PNone => if an then Accept v else Reject
@@ -394,11 +398,12 @@ Fixpoint c_validate (E : env) (d : desc) (v : pv) {struct d} : vres :=
 with c_case (E : env) (d : desc) (v : pv) {struct d} : vres :=
   match d with
   | DInstance cls an tc =>                                      (* case 0 / case 1, 4003-4022 *)
-      if an then (if pv_eqb v PNone then Accept v else if isinstance E v cls then Accept v else Reject)
-      else (if isinstance E v cls then Accept v else Reject)
+      let inst := if tc then typecheck E v cls else isinstance E v cls in   (* case 0: TypeCheck, case 1: IsInstance *)
+      if an then (if pv_eqb v PNone then Accept v else if inst then Accept v else Reject)
+      else (if inst then Accept v else Reject)
   | DSelf an =>                                                 (* case 2, 4023 *)
       if an && pv_eqb v PNone then Accept v
-      else if isinstance E v (e_self E) then Accept v else Reject
+      else if typecheck E v (e_self E) then Accept v else Reject
   | DRangeF lo hi mask =>                                       (* case 4, 4030-4056 *)
       match as_float v with
       | Raises ETypeError => Reject
@@ -413,10 +418,10 @@ with c_case (E : env) (d : desc) (v : pv) {struct d} : vres :=
       match (if hashable v then dict_get m v else None) with Some _ => Accept v | None => Reject end
   | DTuple ds => tuple_check (c_validate E) ds v                (* case 9, 4087 *)
   | DStr | DBytes | DModule =>                                  (* case 11, 4097-4121 *)
-      if isinstance E v (fst (coerce_info d)) then Accept v else Reject
+      if typecheck E v (fst (coerce_info d)) then Accept v else Reject
   | DBool =>
-      if isinstance E v cBOOL then Accept v
-      else if isinstance E v cNPBOOL then Accept (PBool (truthy v)) else Reject
+      if typecheck E v cBOOL then Accept v
+      else if typecheck E v cNPBOOL then Accept (PBool (truthy v)) else Reject
   | DCast t =>                                                  (* case 12, 4123-4134 *)
       if class_of v =? cast_cls t then Accept v
       else match cast_fn E t v with Returns w => Accept w | Raises _ => Reject end
